@@ -1111,6 +1111,182 @@ func runExemplars(k *vf.Case) {
 	k.C.Sig(fmt.Sprintf("exemplars|%d", len(long)))
 }
 
+// runSameName: libraries (instrumentation scopes) that publish an instrument under the same name and kind
+// but in different units. With unit suffixes on they are different families; each must be exposed under its
+// own name with its own value, on every scrape and in whichever order the scopes were first seen.
+func runSameName(k *vf.Case) {
+	r := k.R
+	o := opts{withoutCounterSuffixes: r.Chance(1, 4), withoutScopeInfo: r.Chance(1, 4)}
+	reg := prometheus.NewRegistry()
+	eopts := []otelprom.Option{otelprom.WithRegisterer(reg)}
+	if o.withoutCounterSuffixes {
+		eopts = append(eopts, otelprom.WithoutCounterSuffixes())
+	}
+	if o.withoutScopeInfo {
+		eopts = append(eopts, otelprom.WithoutScopeInfo())
+	}
+	exp, err := otelprom.New(eopts...)
+	if err != nil {
+		k.Violate("exporter-constructor-error", "", err.Error(), nil)
+		return
+	}
+	mp := sdkmetric.NewMeterProvider(sdkmetric.WithReader(exp))
+	ctx := context.Background()
+	defer mp.Shutdown(ctx)
+	units := make([]string, 0, len(unitSuffixes))
+	for u := range unitSuffixes {
+		units = append(units, u)
+	}
+	sort.Strings(units)
+	name := vf.Pick(r, []string{"payload", "rpc.duration", "queue-depth", "Size", "io"})
+	kind := r.Intn(3) // 0 counter, 1 gauge, 2 histogram
+	nScopes := 2 + r.Intn(2)
+	type inst struct {
+		scope, unit string
+		v          int64
+	}
+	var insts []inst
+	usedSuffix := map[string]bool{}
+	for i := 0; i < nScopes; i++ {
+		u := vf.Pick(r, units)
+		if usedSuffix[unitSuffixes[u]] {
+			continue
+		}
+		usedSuffix[unitSuffixes[u]] = true
+		insts = append(insts, inst{scope: fmt.Sprintf("lib%d", i), unit: u, v: int64(3 + 10*i + r.Intn(5))})
+	}
+	for _, in := range insts {
+		m := mp.Meter(in.scope)
+		switch kind {
+		case 0:
+			c, _ := m.Int64Counter(name, metric.WithUnit(in.unit))
+			c.Add(ctx, in.v)
+		case 1:
+			g, _ := m.Int64Gauge(name, metric.WithUnit(in.unit))
+			g.Record(ctx, in.v)
+		default:
+			h, _ := m.Int64Histogram(name, metric.WithUnit(in.unit))
+			h.Record(ctx, in.v)
+		}
+	}
+	for round := 0; round < 2; round++ {
+		var mfs []*dto.MetricFamily
+		var gerr error
+		if !k.Guard("panic-in-gather", "same name, different units", func() { mfs, gerr = reg.Gather() }) {
+			return
+		}
+		if gerr != nil {
+			k.Violate("gather-error", "same name, different units", gerr.Error(), nil)
+			return
+		}
+		fams := map[string]*dto.MetricFamily{}
+		var names []string
+		for _, mf := range mfs {
+			fams[mf.GetName()] = mf
+			names = append(names, mf.GetName())
+		}
+		for _, in := range insts {
+			want := expectedName(name, in.unit, kind == 0, o)
+			mf := fams[want]
+			if mf == nil {
+				k.Violate("family-name", "same name, different units", fmt.Sprintf("round %d: instrument %q unit %q of scope %s: expected family %q, gathered %v", round, name, in.unit, in.scope, want, names), nil)
+				continue
+			}
+			if len(mf.Metric) != 1 {
+				k.Violate("series-count", "same name, different units", fmt.Sprintf("%s: %d series, want 1", want, len(mf.Metric)), nil)
+				continue
+			}
+			mt := mf.Metric[0]
+			var got float64
+			switch kind {
+			case 0:
+				got = mt.GetCounter().GetValue()
+			case 1:
+				got = mt.GetGauge().GetValue()
+			default:
+				got = mt.GetHistogram().GetSampleSum()
+			}
+			if got != float64(in.v) {
+				k.Violate("series-value", "same name, different units", fmt.Sprintf("%s: %v, want %d (the value recorded by scope %s in %q)", want, got, in.v, in.scope, in.unit), nil)
+			}
+			k.C.Count("same_name_series_compared", 1)
+		}
+	}
+	k.C.Count("same_name_cases", 1)
+	k.C.Sig(fmt.Sprintf("same-name|%d|%d|%v", kind, len(insts), o.withoutCounterSuffixes))
+}
+
+// runHostileResource: a resource target_info cannot be built from (a value that is not UTF-8, a label name
+// Prometheus reserves). The exporter reports that through the error handler; a scrape must neither crash nor
+// lose the instruments, and target_info is simply absent.
+func runHostileResource(k *vf.Case) {
+	r := k.R
+	reg := prometheus.NewRegistry()
+	eopts := []otelprom.Option{otelprom.WithRegisterer(reg)}
+	withoutTI := r.Chance(1, 5)
+	if withoutTI {
+		eopts = append(eopts, otelprom.WithoutTargetInfo())
+	}
+	exp, err := otelprom.New(eopts...)
+	if err != nil {
+		k.Violate("exporter-constructor-error", "", err.Error(), nil)
+		return
+	}
+	kvs := []attribute.KeyValue{attribute.String("service.name", "svc")}
+	hostile := ""
+	switch r.Intn(4) {
+	case 0:
+		kvs = append(kvs, attribute.String("bad.value", "a\xffb"))
+		hostile = "invalid UTF-8 value"
+	case 1:
+		kvs = append(kvs, attribute.String("__replica__", "r1"))
+		hostile = "reserved label name"
+	case 2:
+		kvs = append(kvs, attribute.String("__name__", "x"))
+		hostile = "reserved label name"
+	default:
+		hostile = "none"
+	}
+	mp := sdkmetric.NewMeterProvider(sdkmetric.WithReader(exp), sdkmetric.WithResource(resource.NewSchemaless(kvs...)))
+	ctx := context.Background()
+	defer mp.Shutdown(ctx)
+	c, _ := mp.Meter("scope").Int64Counter("requests")
+	c.Add(ctx, 5)
+	for round := 0; round < 3; round++ {
+		var mfs []*dto.MetricFamily
+		var gerr error
+		if !k.Guard("panic-in-gather", "resource target_info cannot be built from: "+hostile, func() { mfs, gerr = reg.Gather() }) {
+			return
+		}
+		if gerr != nil {
+			k.Violate("gather-error", "hostile resource: "+hostile, gerr.Error(), nil)
+			return
+		}
+		var names []string
+		found, ti := false, false
+		for _, mf := range mfs {
+			names = append(names, mf.GetName())
+			if mf.GetName() == "requests_total" && len(mf.Metric) == 1 && mf.Metric[0].GetCounter().GetValue() == 5 {
+				found = true
+			}
+			if mf.GetName() == "target_info" {
+				ti = true
+			}
+		}
+		if !found {
+			k.Violate("series-value", "hostile resource: "+hostile, fmt.Sprintf("round %d: requests_total=5 not exposed; gathered %v", round, names), nil)
+		}
+		if hostile == "none" && ti == withoutTI {
+			k.Violate("target-info-presence", "plain resource", fmt.Sprintf("present=%v withoutTargetInfo=%v", ti, withoutTI), nil)
+		}
+		if hostile != "none" && ti && withoutTI {
+			k.Violate("target-info-presence", "hostile resource", "present although disabled", nil)
+		}
+	}
+	k.C.Count("hostile_resource_cases", 1)
+	k.C.Sig("hostile-resource|" + hostile)
+}
+
 func main() {
 	for i, a := range os.Args {
 		if a == "--replay" && i+1 < len(os.Args) {
@@ -1123,7 +1299,7 @@ func main() {
 		model.NameValidationScheme = model.LegacyValidation //nolint:staticcheck
 	}
 	vf.Main("C18", "exploration", func(c *vf.Ctx) {
-		c.Rule = "child processes per name-validation scheme (legacy / UTF-8, a process global): registries with 1-3 instruments whose names come from the API grammar biased to unit words and 'total' as whole name/prefix/suffix with every separator and case, 255-character names; units from the suffix table, unknown, empty; counters, up-down counters, gauges, histograms, observable counters; attribute keys colliding after sanitisation, starting with digits, non-ASCII, reserved labels; option vectors (without units / counter suffixes / target info / scope info, namespaces incl. invalid characters, resource filter); every registry is gathered twice and compared with a twin cumulative ManualReader on the same MeterProvider; concurrent scrapes and measurements under -race. distinct = distinct (scheme, kind, name class, option vector, namespace, known unit) signatures"
+		c.Rule = "child processes per name-validation scheme (legacy / UTF-8, a process global): registries with 1-3 instruments whose names come from the API grammar biased to unit words and 'total' as whole name/prefix/suffix with every separator and case, 255-character names; units from the suffix table, unknown, empty; counters, up-down counters, gauges, histograms, observable counters; attribute keys colliding after sanitisation, starting with digits, non-ASCII, reserved labels; option vectors (without units / counter suffixes / target info / scope info, namespaces incl. invalid characters, resource filter); every registry is gathered twice and compared with a twin cumulative ManualReader on the same MeterProvider; concurrent scrapes and measurements under -race; scopes publishing one instrument name in different units; resources target_info cannot be built from. distinct = distinct (scheme, kind, name class, option vector, namespace, known unit) signatures"
 		c.Assume = []string{"client_golang's Gather is the acceptance oracle for families; model.EscapeName (prometheus/common) is used to state expected legacy names", "attribute keys equal to reserved otel_scope_* / le labels make client_golang reject the point: exercised for no-crash only", "no two instruments of one registry share a sanitised name prefix (family collisions are the user's)"}
 		otel.SetErrorHandler(&errs{})
 		otel.SetLogger(logr.Discard())
@@ -1134,6 +1310,10 @@ func main() {
 		c.Isolated("scopes", c.N(400, 6000), vf.IsoOpts{Batch: 50, Par: 16}, runScopes)
 		c.Isolated("expo", c.N(600, 8000), vf.IsoOpts{Batch: 60, Par: 16}, runExpo)
 		c.Isolated("exemplars", c.N(300, 4000), vf.IsoOpts{Batch: 50, Par: 16}, runExemplars)
+		c.Isolated("same-name", c.N(400, 6000), vf.IsoOpts{Batch: 50, Par: 16}, runSameName)
+		c.Isolated("hostile-resource", c.N(200, 3000), vf.IsoOpts{Batch: 50, Par: 16}, runHostileResource)
+		c.Floor("same_name_series_compared", 200)
+		c.Floor("hostile_resource_cases", 100)
 		c.Floor("exemplar_cases", 150)
 		c.Floor("expo_cases", 300)
 		c.Floor("expo_cases_with_negative_buckets", 50)
